@@ -28,6 +28,7 @@ static inline bool avoiding(const Json &plan, const char *id)
 
 // record a memory fault as a violation of C05 (or C15 for library data)
 void report_fault(RunResult &rr, Hist &h, const FaultInfo &fi, const char *where);
+Slot *make_custom_hufftables(const Json &hf, const std::vector<uint8_t> &data, uint64_t fill, GuardCtx &gc, RunResult &rr, Hist &h, bool &faulted);
 
 // common: fault description
 std::string fault_str(const FaultInfo &fi);
